@@ -140,6 +140,7 @@ func analyseAppFields(c *core.Ctx, f *appDBFacts) []*appField {
 }
 
 func runC09(c *core.Ctx) {
+	defer checkDirtyCover(c, "C09.dirtycover")
 	f := loadAppDB(c)
 	if f == nil {
 		c.Unk("C09.dirty", "appdb.AppDB", token.NoPos, "type not found")
